@@ -393,7 +393,10 @@ func newMachine(c *Ctx, name string) *Machine {
 		ts := v.Type().String()
 		switch {
 		case isStateType(c, v.Type()):
-			m.stateV = v
+			// the state variable lives across the rounds: the one declared before the loop (a `next` inside a round is a temporary)
+			if m.stateV == nil || (v.Pos() < m.loop.Pos() && m.stateV.Pos() >= m.loop.Pos()) {
+				m.stateV = v
+			}
 		case ts == "strings.Builder":
 			m.builders[v] = v.Name()
 		case isByteSlice(v.Type()) && v.Pos() < m.loop.Pos() && v.Pos() >= m.fn.Body.Pos():
@@ -519,8 +522,8 @@ func newMachine(c *Ctx, name string) *Machine {
 			m.states = append(m.states, n)
 		}
 	}
-	if (m.idxV == nil || m.sizeV == nil) && m.loop.Post == nil {
-		m.synthAdvance()
+	if m.idxV == nil || m.sizeV == nil {
+		m.synthAdvance() // no `i += size` post statement: the advance is looked for in the rounds themselves
 	}
 	switch {
 	case m.idxV == nil || m.sizeV == nil:
